@@ -21,6 +21,11 @@ CLAIMS["C34"] = {
   "note": "Trusted: canonical SSA expression renderer, expected table transcribed from GP 13.3-13.16. Not decided: reporter-set contents (guarantor assignment values), DA-load arithmetic, popularity bit indexing.",
   "technique": "static analysis: SSA effect extraction (non-local stores, setter calls, struct-literal fields) and guard-edge confinement vs specification table",
 }
+CLAIMS["C25"] = {
+  "text": "Decides the provenance/effect tables of the recent-history transition: History2HistoryDagger performs exactly one store (last entry's state root ← header's parent state root, guarded by non-empty history, applied to prior β.History); the appended entry's fields and their sources (Blake2b of the encoded header, zero state root, MapWorkReportFromEg of the block's guarantees, commitment of this block's posterior accumulation outputs); the grow/evict arms of AddItem2BetaHPrime (copy source β† or β†[1:], slot index, bound = types.MaxBlocksHistory, arms selected by len < H); reported packages sorted by hash bytes before return; the MMR append/commit chain feeding both β_B' and the entry.",
+  "note": "Trusted: canonical SSA renderer (calls uninterpreted), GP 7.5-7.8 table. Not decided: hash values; bit-identity of untouched entries beyond absence of any other store.",
+  "technique": "static analysis: SSA effect/provenance extraction (stores, copy, setter and helper call arguments) + AST comparator check vs specification table",
+}
 NOT_APPLICABLE = {
  "C15": "equality of a 32-byte hash with an independent bit-level reference over all entry sets; the only static handles are byte constants of the node encodings (a frozen fragment) — no structural clause that is not circular; sibling agreement of cached/uncached recursion is claimed under C16",
  "C30": "round-trip equality whose mechanism is a Rust Reed-Solomon crate behind cgo; no Rust analyser is installed and the Go side is a thin FFI wrapper with no decidable clause of the statement",
